@@ -1,6 +1,7 @@
 package mon
 
 import (
+	"crypto/tls"
 	"bytes"
 	"crypto/sha256"
 	"encoding/binary"
@@ -795,6 +796,9 @@ func c12CrossTalk(w *core.W, j int) {
 	sched.Use(ctl)
 	defer sched.Use(nil)
 	network := []string{"udp", "tcp"}[j%2]
+	if j%6 == 5 {
+		network = "tcp-tls" // the stream path behind crypto/tls: record boundaries never coincide with message boundaries
+	}
 	log := &c12Log{handled: map[string]int{}, seen: map[string]string{}, tsig: map[string]string{}}
 	hold := time.Duration(0)
 	if j%4 == 2 {
@@ -802,6 +806,10 @@ func c12CrossTalk(w *core.W, j int) {
 	}
 	started := make(chan struct{})
 	srv := &dns.Server{Addr: "127.0.0.1:0", Net: network, Handler: log.handler(hold), NotifyStartedFunc: func() { close(started) }, TsigSecret: c12Secrets}
+	var tlsCli *tls.Config
+	if network == "tcp-tls" {
+		srv.TLSConfig, tlsCli = c13TLS()
+	}
 	serveErr := make(chan error, 1)
 	go func() { serveErr <- srv.ListenAndServe() }()
 	select {
@@ -873,7 +881,7 @@ func c12CrossTalk(w *core.W, j int) {
 		go func(c int) {
 			defer wg.Done()
 			r := w.Rng(j, c)
-			cli := &dns.Client{Net: network, Timeout: 5 * time.Second, UDPSize: 4096}
+			cli := &dns.Client{Net: network, Timeout: 5 * time.Second, UDPSize: 4096, TLSConfig: tlsCli}
 			signing := c%3 == 0 // a third of the clients sign their requests (TSIG) and verify the signed replies
 			if signing {
 				cli.TsigSecret = c12Secrets
@@ -925,7 +933,7 @@ func c12CrossTalk(w *core.W, j int) {
 				var rep *dns.Msg
 				// (signing clients dial per query: Conn.WriteMsg signs a second query on the same Conn as a
 				// continuation of the first - with the previous MAC - which no server accepts; outside C12)
-				if network == "tcp" && c%2 == 0 && !signing { // half of the TCP clients reuse one connection
+				if network != "udp" && c%2 == 0 && !signing { // half of the TCP clients reuse one connection
 					if conn == nil {
 						conn, err = cli.Dial(addr)
 						if err != nil {
@@ -1070,12 +1078,24 @@ func c12MultiHomed(w *core.W, j int) {
 		r.SetReply(req)
 		rw.WriteMsg(r)
 	})
-	srv := &dns.Server{Addr: "0.0.0.0:0", Net: "udp", Handler: h, NotifyStartedFunc: func() { close(started) }}
+	// three socket shapes: IPv4 wildcard with two IPv4 clients; dual-stack wildcard ([::], "udp") with an
+	// IPv4 client (seen as ::ffff:127.0.0.1, IPv4 control message) and an IPv6 client; IPv6-only wildcard
+	shape := []struct{ listen, network, a, b, label string }{
+		{"0.0.0.0:0", "udp", "127.0.0.1", "127.0.0.2", "udp-wildcard"},
+		{"[::]:0", "udp", "127.0.0.1", "[::1]", "udp-dualstack-wildcard"},
+		{"[::]:0", "udp", "[::1]", "127.0.0.2", "udp-dualstack-wildcard"},
+		{"[::]:0", "udp6", "[::1]", "[::1]", "udp6-wildcard"},
+	}[j%4]
+	srv := &dns.Server{Addr: shape.listen, Net: shape.network, Handler: h, NotifyStartedFunc: func() { close(started) }}
 	serveErr := make(chan error, 1)
 	go func() { serveErr <- srv.ListenAndServe() }()
 	select {
 	case <-started:
 	case err := <-serveErr:
+		if shape.listen != "0.0.0.0:0" {
+			w.Count("multihomed_ipv6_unavailable", 1)
+			return
+		}
 		w.Inconclusive("multihomed-listen:" + fmt.Sprint(err))
 		return
 	case <-time.After(c12Watch):
@@ -1084,8 +1104,12 @@ func c12MultiHomed(w *core.W, j int) {
 	}
 	defer func() { srv.Shutdown(); <-serveErr }()
 	_, port, _ := net.SplitHostPort(srv.PacketConn.LocalAddr().String())
-	ca, errA := net.Dial("udp", "127.0.0.1:"+port)
-	cb, errB := net.Dial("udp", "127.0.0.2:"+port)
+	ca, errA := net.Dial("udp", shape.a+":"+port)
+	cb, errB := net.Dial("udp", shape.b+":"+port)
+	if (errA != nil || errB != nil) && shape.listen != "0.0.0.0:0" {
+		w.Count("multihomed_ipv6_unavailable", 1)
+		return
+	}
 	if errA != nil || errB != nil {
 		w.Inconclusive(fmt.Sprintf("multihomed-dial:%v/%v", errA, errB))
 		return
@@ -1101,6 +1125,7 @@ func c12MultiHomed(w *core.W, j int) {
 	}
 	w.Eval(1)
 	w.Count("multihomed_rounds", 1)
+	w.Cover("multihomed_shape", shape.label+" "+shape.a+" "+shape.b)
 	ca.Write(mk(fmt.Sprintf("a.j%d.example.", j), 0xA000+uint16(j)))
 	select {
 	case <-enteredA:
@@ -1119,7 +1144,7 @@ func c12MultiHomed(w *core.W, j int) {
 	okA := read(ca, 0xA000+uint16(j))
 	w.NontrivialStr("multihomed", fmt.Sprint(j))
 	if !okA || !okB {
-		w.Violation("C12/reply-did-not-reach-its-client/udp-wildcard", fmt.Sprintf("server on the wildcard address, client A via 127.0.0.1 (handler held while the datagram of client B via 127.0.0.2 was read): reply received A=%v B=%v - a reply sent from another local address than the one the client used never arrives on its connected socket", okA, okB), nil)
+		w.Violation("C12/reply-did-not-reach-its-client/"+shape.label, fmt.Sprintf("server on the wildcard address "+shape.listen+" ("+shape.network+"), client A via "+shape.a+" (handler held while the datagram of client B via "+shape.b+" was read): reply received A=%v B=%v - a reply sent from another local address than the one the client used never arrives on its connected socket", okA, okB), nil)
 	}
 }
 
@@ -1171,8 +1196,8 @@ func init() {
 		section{"server", tiered(12, 300), c12ServerFraming},
 		section{"ids", tiered(300, 6000), c12IDs},
 		section{"respwrite", tiered(3, 30), c12ResponseWrite},
-		section{"crosstalk", tiered(16, 400), c12CrossTalk},
-		section{"multihomed", tiered(6, 100), c12MultiHomed},
+		section{"crosstalk", tiered(18, 400), c12CrossTalk},
+		section{"multihomed", tiered(8, 100), c12MultiHomed},
 		section{"server-datagram-sizes", tiered(6, 100), c12ServerDatagramSizes},
 	)
 	core.Register(&core.Monitor{
@@ -1181,6 +1206,6 @@ func init() {
 			"65536+ octet writes; stream/datagram ID handling with 0..5 stale/duplicate/foreign replies in seeded orders; cross-talk: 4..32 concurrent clients x 12 unique requests against real loopback UDP/TCP servers with scribbled recycled buffers and hook delays, offline exactly-once/no-mixing check; a third of the clients sign with TSIG (handler must see TsigStatus nil, signed replies must verify); after every split plan the following message on the stream is read too, incl. segments that carry the end of one frame and the start of the next; race detector on; " +
 			"non-trivial = distinct (size, split plan) / scripted reply order / cross-talk round",
 		Assumptions: []string{"loss of UDP datagrams is legal: an unanswered request stays open, never 'failed'", "a watchdog of 20 s decides 'hang' for in-memory transports"},
-		MinObserved: []string{"split_plans", "fault_offsets", "server_split_plans", "datagram_scripts", "exchanges_udp", "exchanges_tcp", "hook_poolPut", "oversize_response_writes", "following_messages_read", "conn_read_calls", "write_sequences", "multihomed_rounds", "signed_requests_handled_udp", "signed_requests_handled_tcp"},
+		MinObserved: []string{"split_plans", "fault_offsets", "server_split_plans", "datagram_scripts", "exchanges_udp", "exchanges_tcp", "hook_poolPut", "oversize_response_writes", "following_messages_read", "conn_read_calls", "write_sequences", "multihomed_rounds", "signed_requests_handled_udp", "signed_requests_handled_tcp", "exchanges_tcp-tls"},
 	})
 }
